@@ -204,3 +204,23 @@ PROPS["C03"] = dict(
           "post-condition + permutation); non-trivial = range length >= 3, duplicates present, and the view is non-contiguous or the range yields proxy rows; distinct = hash of decoded case text"),
     assumptions=COMMON_ASSUME + ["proxy-row ranges are exercised for views of rank 2 and 3 (rows are sub-views of rank 1 and 2)", "views with zero elements but a non-zero number of rows are skipped (collapsed shapes)"],
 )
+
+PROPS["C12"] = dict(
+    targets=[dict(name="C12int", src="vp/props/C12.cpp", defs=["VP_C12_T=0"], libs=["-lopenblas"], maxlen=12 + 4*5),
+             dict(name="C12struct", src="vp/props/C12.cpp", defs=["VP_C12_T=1"], libs=["-lopenblas"], maxlen=12 + 4*5),
+             dict(name="C12complex", src="vp/props/C12.cpp", defs=["VP_C12_T=2"], libs=["-lopenblas"], maxlen=12 + 4*5)],
+    quick=dict(cases=2000, floor=16000),
+    thorough=dict(cases=40000, floor=300000, fuzz=dict(time=240)),
+    level="exploration",
+    level_text=("Generated source views (C01 generator over mutable roots of int, a struct {int a; short b; short c;} and std::complex<double>) and a generated projection: element_transformed "
+                "with a value-returning function (checked again after mutating the source: laziness; composed with rotated(); converted to an array), with a reference-returning function (write "
+                "through, nothing else changes), with a pointer to member; static_array_cast<T const>; as_const; member_cast of two members (value and address of every element, after mutation, "
+                "composed with rotated()); same-size reinterpret_array_cast; reinterpret_array_cast<U>(n) with the trailing dimension over each element's own bytes (const&, & and && "
+                "overloads); blas::real / blas::imag (value and aliasing); array{view} and array<long>{view}. Every index tuple is compared with f(source element at the model position)."),
+    technique="model-based testing of projection views over generated source views: f(source element at the index-mapping model position) as oracle (rapidcheck + libFuzzer)",
+    rule=("case = element type (one harness per type, workers split evenly) x root kind x D in 1..3 x extents 0..7 + up to 5 view operations + projection; non-trivial = source view not compact "
+          "row-major with >= 2 elements; distinct = hash of decoded case text"),
+    assumptions=COMMON_ASSUME + ["sources are views of mutable roots, read-only flavours are reached through std::as_const(view) (as in the repository's tests): views whose element pointer is pointer-to-const do not instantiate several casts on the pinned tree",
+                 "blas::real/imag are applied to mutable view types only (they do not instantiate for read-only view types such as the result of reversed())", "arrays with zero elements are skipped (the casts offset or dereference the null data pointer: null-root family)",
+                 "element_transformed is given temporary functors (an lvalue functor deduces a reference type that transform_ptr cannot store)"],
+)
